@@ -9,10 +9,12 @@ package main
 
 import (
 	"context"
+	"errors"
 	"fmt"
 	"strings"
 
 	"storj.io/drpc"
+	"storj.io/drpc/drpcerr"
 
 	"verifharness/census"
 	"verifharness/director"
@@ -372,6 +374,96 @@ func endedEarlyBehindBufferedAnswer(id string, seed uint64) runner.Result {
 	}
 	if len(fails) > 0 {
 		return runner.Violation(id, "isolation:rpc-after-one-ended-early-behind-a-buffered-answer", desc+"\n"+strings.Join(fails, "\n"))
+	}
+	res := runner.Hold(id, desc, true)
+	res.Events = int64(2 * rounds)
+	return res
+}
+
+// failedCallThenNext: an RPC that the server cannot serve (a method it does not have, which the mux
+// reports as a protocol-class error; or a handler failing with an error of that class, or any other)
+// fails for its caller and for nobody else: the RPCs that follow on the connection get their own answers.
+func failedCallThenNext(id string, seed uint64) runner.Result {
+	r := &payload.SplitMix{S: seed}
+	cfg := prog.GenConfig(r, false)
+	if cfg.Net.Cap == 0 {
+		cfg.Net.Cap = -1
+	}
+	class := payload.Pick(r, []string{"unknown-rpc", "protocol-class", "internal-class", "closed-class", "plain", "coded"})
+	mkErr := func(rpc string) error {
+		switch class {
+		case "unknown-rpc":
+			return drpc.ProtocolError.New("unknown rpc: %q", rpc)
+		case "protocol-class":
+			return drpc.ProtocolError.New("handler says the request was malformed")
+		case "internal-class":
+			return drpc.InternalError.New("handler internal")
+		case "closed-class":
+			return drpc.ClosedError.New("handler says closed")
+		case "coded":
+			return drpcerr.WithCode(errors.New("coded failure"), 7)
+		}
+		return errors.New("plain failure")
+	}
+	handler := rig.HandlerFunc(func(stream drpc.Stream, rpc string) error {
+		if rpc == "/missing" {
+			return mkErr(rpc)
+		}
+		var m []byte
+		if err := stream.MsgRecv(&m, payload.Enc{}); err != nil {
+			return err
+		}
+		h, _ := payload.Parse(m)
+		out := payload.Make(h.Tag, 1, 0, 0, 10)
+		return stream.MsgSend(&out, payload.Enc{})
+	})
+	rg := rig.New(rig.Config{Net: cfg.Net, Client: cfg.Client, Server: cfg.Server}, handler)
+	defer rg.Teardown()
+	rounds := 1 + r.Intn(3)
+	desc := fmt.Sprintf("%s | %d rounds of: a call the server fails with a %s error (as Invoke or as a stream), then a unary call", cfg.Desc, rounds, class)
+	var fails []string
+	for i := 0; i < rounds && len(fails) == 0; i++ {
+		tag := uint64(2*i + 1)
+		in := payload.Make(tag, 0, 0, 0, 5)
+		var out []byte
+		asStream := r.Intn(2) == 0
+		op := rig.Go("failing", func() (interface{}, error) {
+			if !asStream {
+				return nil, rg.Conn.Invoke(context.Background(), "/missing", payload.Enc{}, &in, &out)
+			}
+			st, err := rg.Conn.NewStream(context.Background(), "/missing", payload.Enc{})
+			if err != nil {
+				return nil, err
+			}
+			defer st.Close()
+			if r.Intn(2) == 0 {
+				st.MsgSend(&in, payload.Enc{})
+			}
+			return nil, st.MsgRecv(&out, payload.Enc{})
+		})
+		if !op.Wait() {
+			return runner.Inconcl(id, "the failing call blocked (progress is C06's and C10's concern): "+desc)
+		}
+		if op.Err == nil {
+			fails = append(fails, fmt.Sprintf("round %d: the call the server failed returned nil", i+1))
+			break
+		}
+		in2 := payload.Make(tag+1, 0, 0, 0, 5)
+		var out2 []byte
+		op2 := rig.Go("unary", func() (interface{}, error) {
+			return nil, rg.Conn.Invoke(context.Background(), "/echo", payload.Enc{}, &in2, &out2)
+		})
+		if !op2.Wait() {
+			return runner.Inconcl(id, "the unary call blocked: "+desc)
+		}
+		if op2.Err != nil {
+			fails = append(fails, fmt.Sprintf("round %d: the unary RPC after the failed one ended with %s (connection closed: %v); the failed call's error was %s", i+1, rig.ErrStr(op2.Err), rig.IsClosed(rg.Conn.Closed()), rig.ErrStr(op.Err)))
+		} else if h, err := payload.Parse(out2); err != nil || h.Tag != tag+1 {
+			fails = append(fails, fmt.Sprintf("round %d: the unary RPC got an answer that is not its own (tag %d, err %v)", i+1, h.Tag, err))
+		}
+	}
+	if len(fails) > 0 {
+		return runner.Violation(id, "isolation:rpc-after-a-call-the-server-failed", desc+"\n"+strings.Join(fails, "\n"))
 	}
 	res := runner.Hold(id, desc, true)
 	res.Events = int64(2 * rounds)
@@ -744,6 +836,11 @@ func gen(tier string, seed uint64) []runner.Scenario {
 		i := i
 		id := fmt.Sprintf("flush-parked/%d", i)
 		out = append(out, runner.Scenario{ID: id, Run: func() runner.Result { return flushParked(id, payload.Hash(seed, 0xC02F, uint64(i))) }})
+	}
+	for i := 0; i < n/10; i++ {
+		i := i
+		id := fmt.Sprintf("failed-call-then-next/%d", i)
+		out = append(out, runner.Scenario{ID: id, Run: func() runner.Result { return failedCallThenNext(id, payload.Hash(seed, 0xC029, uint64(i))) }})
 	}
 	for i := 0; i < n/10; i++ {
 		i := i
